@@ -372,3 +372,39 @@ Qed.
 Lemma xml_well_formed o t b :
   shape_ok t = true -> xml o t = Ok b -> exists x, xml_read b = Some x.
 Proof. intros Hs Hx. eexists. apply (xml_mirrors o t b Hs Hx). Qed.
+
+(* ---------------------------------------------------------------- the isomorphism, spelled out *)
+(* the skeleton of an element tree / of a node tree: names (kinds) in order and nesting *)
+Inductive rose := Rose (name : bytes) (children : list rose).
+
+Fixpoint xshape (x : xtree) : rose :=
+  match x with
+  | XElem n _ cs => Rose n (map xshape cs)
+  | XText n _ _ => Rose n []
+  end.
+
+Fixpoint kshape (t : node) : rose :=
+  match t with Node v _ ch => Rose (spec_name (kind_of v)) (map kshape ch) end.
+
+Lemma mirror_shape o : forall t par gp ix,
+  literal_leaves t = true -> xshape (tree_to_xtree_at o par gp ix t) = kshape t.
+Proof.
+  induction t as [v sp ch IH] using node_ind2. intros par gp ix Hl.
+  cbn [literal_leaves] in Hl. apply andb_true_iff in Hl. destruct Hl as [Hv Hch].
+  cbn [tree_to_xtree_at kshape].
+  destruct (spec_text v) as [t|]; cbn [xshape].
+  - destruct ch; [reflexivity | discriminate].
+  - f_equal. clear Hv. generalize 0 as i. induction ch as [|c r IHr]; intro i; cbn [map_ix map]; [reflexivity|].
+    inversion IH as [|? ? Hc Hr]; subst. cbn [forallb] in Hch. apply andb_true_iff in Hch. destruct Hch as [H1 H2].
+    rewrite (Hc _ _ _ H1), (IHr Hr H2). reflexivity.
+Qed.
+
+(* read back from the output: the skeleton of kinds, and per node the literal text *)
+Lemma xml_iso o t b :
+  shape_ok t = true -> xml o t = Ok b ->
+  exists x, xml_read b = Some x /\ xshape x = kshape t.
+Proof.
+  intros Hs Hx. exists (tree_to_xtree o t). split; [apply (xml_mirrors o t b Hs Hx)|].
+  unfold shape_ok in Hs. apply andb_true_iff in Hs. destruct Hs as [_ Hl].
+  apply mirror_shape. exact Hl.
+Qed.
